@@ -248,6 +248,7 @@ def wellformed_and_roots(item):
                 fd = os.open(t.root, os.O_RDONLY | os.O_DIRECTORY)
                 try:
                     variants['dir_fd'] = G.glob(pat, flags=flags | G.U, dir_fd=fd)
+                    variants['bytes-pattern-with-dir_fd'] = [os.fsdecode(x) for x in G.glob(os.fsencode(pat), flags=flags | G.U, dir_fd=fd)]
                 finally:
                     os.close(fd)
                 os.chdir(t.root)
